@@ -28,6 +28,20 @@ Streams
           (`flstep_nonlocal_nonoptimal`), not flagged - C14 does not claim optimality
           (design-notes/c14_opt_witness.py).  Movies whose every step keeps the side condition also go
           through `FLRUN` with opt=1.
+  cam   : raw movies as cameras produce them - a smooth background (linear gradient in 8 directions,
+          bright region / vignette, one dark corner, sigmoid edge of an out-of-focus region, constant
+          offset) under slow illumination drift between frames (gain and / or additive), uint8 or
+          float frames, 44-88 px - through `find_link(preprocess=True)`: the band-pass is what removes
+          such a background, and both the first pass and the relocation of lost features have to work
+          on the cleaned frame.  Mostly regime "sep" (same premise as above, blobs of the brightness
+          of the background variation); the generator states the premise on ITS OWN band-pass (scipy
+          only): nothing but the blobs is left of the cleaned frame (the clipping `threshold` is
+          chosen accordingly, as a user would), every blob is a clear maximum of it above the
+          percentile threshold, minmass stays below the band-passed mass of the dimmest blob.  Also
+          varies what the movie stream keeps fixed: percentile, noise_size, smoothing_size, threshold,
+          diameter a little below / above the separation, a do-nothing `after_link` hook, list vs
+          reader object.  One fifth are the adversarial layouts of the movie stream on such a
+          background (admissibility only).
   call  : `FindLinker.get_relocate_candidates` driven directly on tie-heavy small images (2-D and
           3-D) with planted sources / background features at exact-boundary distances; same
           comparison, plus the call-level oracle.
@@ -38,8 +52,13 @@ sum((d_i/separation_i)^2) >= 1; every feature that was not among the detections 
 within search_range (ellipsoid, edge included) of a feature of one of the previous memory+1 output
 frames; every feature keeps the margin radius_i <= c_i <= shape_i - radius_i - 1; mass finite and
 >= minmass.  Call level: the same clauses for the returned candidates against the sources and the
-current hash.
+current hash.  Recovery clause (regime sep, every handed / emitted feature is a rendered blob): every
+blob carries one label through all frames, labels differ between blobs; a withheld detection of a blob
+that the first pass would have kept (mass of the feature mask on the frame handed to find_link >=
+minmass) is in the output AT ITS OWN PIXEL (the complete trajectories are those of the complete
+detections); nothing withheld -> the partition equals detect-then-link.
 """
+import collections
 import contextlib
 import math
 from fractions import Fraction
@@ -57,7 +76,12 @@ RULE = ("movie stream: 2-D uint8 movies 32-64 px, 3-6 frames, 1-6 Gaussian blobs
         "memory 0-1, preprocess on/off, fault pattern none/one/all/random; regimes sep (recovery "
         "asserted) and adv (admissibility only; margins, approaching pairs, shortage 2).  call "
         "stream: direct get_relocate_candidates on palette images 12-28 px (3-D 8-12 px) with "
-        "sources/background at exact-boundary distances.  Non-trivial = at least one relocation "
+        "sources/background at exact-boundary distances.  cam stream: raw camera movies 44-88 px "
+        "(background gradient / vignette / dark corner / sigmoid edge / offset up to 200 grey levels, "
+        "gain 0.9-1.08 and additive drift between frames, uint8 or float64 frames, blobs of amplitude "
+        "30-100) with preprocess=True, percentile 30-75, noise_size 0.8-1.5, smoothing_size default or "
+        "explicit, threshold default or explicit, after_link no-op hook, list or reader object; 4/5 in "
+        "regime sep with the premise checked on the generator's own band-pass.  Non-trivial = at least one relocation "
         "call returned a candidate (movie: and it was emitted) ; distinct = distinct canonical "
         "input.")
 ASSUMPTIONS = [
@@ -79,6 +103,16 @@ ASSUMPTIONS = [
     "apart than separation + 2*search_range + diameter, farther than radius + search_range + 3 "
     "from the border, displacement <= search_range - 1.5 px, noise mass below minmass)",
     "trajectories are compared as partitions (label values are unspecified)",
+    "cam stream, regime sep: the premise 'the first pass finds exactly the rendered blobs' is stated by "
+    "the generator on its own band-pass (scipy Gaussian minus rolling average, clipped); the code's "
+    "rolling average of an integer frame is computed in integer arithmetic and may leave up to 2 grey "
+    "levels more, so the clipping threshold handed to find_link is chosen >= residue + 2.25 for uint8 "
+    "frames (draws that would need a threshold above 10, or whose dimmest blob is not 1.2 x above the "
+    "percentile threshold, are discarded); minmass <= 0.8 x the band-passed mass of the dimmest blob",
+    "with preprocess=True find_link applies minmass to the RAW-frame mass in the first pass and to the "
+    "band-passed mass in the relocation: a minmass between the two (a blob the first pass keeps but the "
+    "relocation refuses) is kept out of the generators - reported as an observation on the unchanged "
+    "tree, not asserted",
     "FLSTEP (model of one next_level): the state is rebuilt from the implementation's own labelled "
     "levels; the relocation oracle is the table of this run's get_relocate_candidates return values "
     "keyed by the SET of source positions; steps beyond the neighbour cap / sub-net size limit are "
@@ -138,11 +172,44 @@ def radius_of(inp):
     return [int(float(Fraction(x)) // 2) for x in d]
 
 
-def render(shape, blobs, noise, offset=0):
+def cam_background(shape, cam):
+    """smooth raw-camera background (float field, before gain / drift): what the band-pass of
+    find_link (preprocess=True) is there to remove.  kinds: offset (constant), gradient (linear, 8
+    directions), vignette (bright region around `centre`, quadratic fall-off), corner (one dark
+    corner), step (bright out-of-focus region with a sigmoid edge)"""
+    H, W = shape
+    yy, xx = np.mgrid[0:H, 0:W].astype(np.float64)
+    lo, hi = float(cam["lo"]), float(cam["hi"])
+    kind = cam["kind"]
+    if kind == "offset":
+        return np.full(shape, hi)
+    if kind in ("gradient", "step"):
+        a = cam["angle"] * math.pi / 4
+        u = yy * math.sin(a) + xx * math.cos(a)
+        if kind == "gradient":
+            u = (u - u.min()) / (u.max() - u.min())
+            return lo + (hi - lo) * u
+        u0 = u.min() + cam["pos"] * (u.max() - u.min())
+        return lo + (hi - lo) / (1.0 + np.exp(-(u - u0) / cam["width"]))
+    if kind == "vignette":
+        cy, cx = cam["centre"][0] * (H - 1), cam["centre"][1] * (W - 1)
+        r2 = (yy - cy) ** 2 + (xx - cx) ** 2
+        return hi - (hi - lo) * r2 / r2.max()
+    if kind == "corner":
+        cy, cx = cam["centre"][0] * (H - 1), cam["centre"][1] * (W - 1)
+        r2 = ((yy - cy) ** 2 + (xx - cx) ** 2) / (cam["reach"] * math.hypot(H, W)) ** 2
+        return hi - (hi - lo) * np.exp(-r2)
+    raise ValueError(kind)
+
+
+def render(shape, blobs, noise, offset=0, cam=None, k=0):
     img = np.zeros(shape, dtype=np.float64) + offset
     yy, xx = np.mgrid[0:shape[0], 0:shape[1]]
     for (y, x, amp, sig) in blobs:
         img += amp * np.exp(-((yy - y) ** 2 + (xx - x) ** 2) / (2.0 * sig * sig))
+    if cam is not None:
+        # illumination: frame k = gain_k * (background + blobs) + drift_k
+        img = (img + cam_background(shape, cam)) * cam["gain"][k] + cam["drift"][k]
     kind = noise.get("kind", "none")
     if kind != "none":
         nr = np.random.default_rng(noise["seed"])
@@ -155,6 +222,53 @@ def render(shape, blobs, noise, offset=0):
         elif kind == "offset":
             img += L
     return np.clip(np.floor(img + 0.5), 0, 255).astype(np.uint8)
+
+
+def own_bandpass(img, noise_size, smoothing, threshold=1.0):
+    """the band-pass the documentation of find_link describes (Gaussian of `noise_size` minus a
+    rolling average of box `smoothing`, values below the threshold -> 0), written with scipy only:
+    used by the GENERATOR to state the premise of the recovery clause (every rendered blob is a
+    clear maximum of the cleaned frame, nothing else is left) and to choose minmass"""
+    from scipy import ndimage
+    f = np.asarray(img, dtype=np.float64)
+    out = ndimage.gaussian_filter(f, noise_size, mode="constant", truncate=4.0) \
+        - ndimage.uniform_filter(f, smoothing, mode="nearest")
+    return np.where(out >= threshold, out, 0.0)
+
+
+def disc_mass(img, p, rad):
+    """sum of the pixels with sum(((x_i - p_i)/rad_i)^2) <= 1 (the feature mask); None when the
+    mask does not fit in the image"""
+    sl = []
+    for c, r, sh in zip(p, rad, img.shape):
+        if c - r < 0 or c + r + 1 > sh:
+            return None
+        sl.append(slice(c - r, c + r + 1))
+    sub = np.asarray(img)[tuple(sl)]
+    g = np.indices(sub.shape)
+    prod = 1
+    for r in rad:
+        prod *= r * r
+    lhs = sum((g[i] - r) ** 2 * (prod // (r * r)) for i, r in enumerate(rad))
+    m = lhs <= prod
+    if np.issubdtype(sub.dtype, np.integer):
+        return int(sub[m].astype(np.int64).sum())
+    return float(sub[m].sum())
+
+
+class Reader:
+    """minimal pims-like sequence (no list): a fresh frame object on every access"""
+    def __init__(self, frames):
+        self._frames = frames
+
+    def __len__(self):
+        return len(self._frames)
+
+    def __getitem__(self, k):
+        return Img(np.array(self._frames[k]), self._frames[k].frame_no)
+
+    def __iter__(self):
+        return (self[k] for k in range(len(self._frames)))
 
 
 # ------------------------------------------------------------------------------------------
@@ -545,6 +659,50 @@ def gen_params(rng, regime):
     return dict(sep=sep, sep_iso=sep_iso, sr=sr, iso=sr_iso, diameter=diameter)
 
 
+def place_sep(rng, H, W, n, nfr, sep, sr, rad, sig, amp=(130, 250)):
+    """the premise of the recovery clause: up to n blobs farther apart than separation +
+    2*search_range + diameter (+3), farther than radius + search_range + 3 from the border, every
+    step inside the search ellipse shrunk by 1.5 px.  Returns the per-frame blob lists or None."""
+    blobs = []
+    dmin = max(sep) + 2 * max(sr) + 2 * max(rad) + 3
+    bord = [r + s + 3 for r, s in zip(rad, sr)]
+    tries = 0
+    while len(blobs) < n and tries < 300:
+        tries += 1
+        lo0, hi0 = int(math.ceil(bord[0])), int(H - 1 - math.ceil(bord[0]))
+        lo1, hi1 = int(math.ceil(bord[1])), int(W - 1 - math.ceil(bord[1]))
+        if hi0 < lo0 or hi1 < lo1:
+            break
+        p = [rng.randint(lo0, hi0), rng.randint(lo1, hi1)]
+        if all(math.hypot(p[0] - q[0], p[1] - q[1]) >= dmin for q in blobs):
+            blobs.append(p + [rng.randint(amp[0], amp[1]), sig])
+    if not blobs:
+        return None
+    frames = []
+    cur = [list(b) for b in blobs]
+    for k in range(nfr):
+        frames.append([list(b) for b in cur])
+        nxt = []
+        for i, b in enumerate(cur):
+            moved = b
+            for _ in range(8):
+                dy = rng.randint(-int(sr[0]), int(sr[0]))
+                dx = rng.randint(-int(sr[1]), int(sr[1]))
+                lim0, lim1 = max(sr[0] - 1.5, 0.01), max(sr[1] - 1.5, 0.01)
+                if (dy / lim0) ** 2 + (dx / lim1) ** 2 > 1:
+                    continue
+                c = [b[0] + dy, b[1] + dx]
+                if not (bord[0] <= c[0] <= H - 1 - bord[0] and bord[1] <= c[1] <= W - 1 - bord[1]):
+                    continue
+                others = nxt + cur[i + 1:]
+                if all(math.hypot(c[0] - q[0], c[1] - q[1]) >= dmin for q in others):
+                    moved = c + b[2:]
+                    break
+            nxt.append(moved)
+        cur = nxt
+    return frames
+
+
 def gen_movie(rng, regime):
     par = gen_params(rng, regime)
     sep = [float(Fraction(x)) for x in par["sep"]]
@@ -588,44 +746,10 @@ def gen_movie(rng, regime):
             # features in one sub-net, minutes of branch and bound and nothing learnt
             minmass = max(minmass, nmask * level)
     n = rng.randint(1, 6)
-    blobs = []
     if regime == "sep":
-        dmin = max(sep) + 2 * max(sr) + 2 * max(rad) + 3
-        bord = [r + s + 3 for r, s in zip(rad, sr)]
-        tries = 0
-        while len(blobs) < n and tries < 300:
-            tries += 1
-            lo0, hi0 = int(math.ceil(bord[0])), int(H - 1 - math.ceil(bord[0]))
-            lo1, hi1 = int(math.ceil(bord[1])), int(W - 1 - math.ceil(bord[1]))
-            if hi0 < lo0 or hi1 < lo1:
-                break
-            p = [rng.randint(lo0, hi0), rng.randint(lo1, hi1)]
-            if all(math.hypot(p[0] - q[0], p[1] - q[1]) >= dmin for q in blobs):
-                blobs.append(p + [rng.randint(130, 250), sig])
-        if not blobs:
+        frames = place_sep(rng, H, W, n, nfr, sep, sr, rad, sig)
+        if frames is None:
             return None
-        frames = []
-        cur = [list(b) for b in blobs]
-        for k in range(nfr):
-            frames.append([list(b) for b in cur])
-            nxt = []
-            for i, b in enumerate(cur):
-                moved = b
-                for _ in range(8):
-                    dy = rng.randint(-int(sr[0]), int(sr[0]))
-                    dx = rng.randint(-int(sr[1]), int(sr[1]))
-                    lim0, lim1 = max(sr[0] - 1.5, 0.01), max(sr[1] - 1.5, 0.01)
-                    if (dy / lim0) ** 2 + (dx / lim1) ** 2 > 1:
-                        continue
-                    c = [b[0] + dy, b[1] + dx]
-                    if not (bord[0] <= c[0] <= H - 1 - bord[0] and bord[1] <= c[1] <= W - 1 - bord[1]):
-                        continue
-                    others = nxt + cur[i + 1:]
-                    if all(math.hypot(c[0] - q[0], c[1] - q[1]) >= dmin for q in others):
-                        moved = c + b[2:]
-                        break
-                nxt.append(moved)
-            cur = nxt
     else:
         # adversarial: anywhere, close pairs, margins, appearing / vanishing blobs
         frames = []
@@ -674,6 +798,184 @@ def gen_movie(rng, regime):
                withhold=dict(mode=rng.choice(["none", "one", "one", "all", "random30", "random30",
                                               "random50"]),
                              seed=rng.randrange(10 ** 6)), dim=2)
+    inp.update(par)
+    return inp
+
+
+CAM_SEPS = [(["7", "7"], True), (["8", "8"], True), (["9", "9"], True), (["9", "9"], True),
+            (["10", "10"], True), (["11", "11"], True), (["7", "9"], False), (["9", "7"], False),
+            (["9", "11"], False), (["15/2", "15/2"], True), (["17/2", "17/2"], True)]
+
+
+def draw_cam(rng, nfr, amp_hi):
+    """a raw-camera illumination: background field + slow gain / additive drift between frames;
+    (hi + brightest blob) * largest gain + drift stays below the uint8 ceiling"""
+    kind = rng.choice(["gradient", "gradient", "vignette", "corner", "step", "offset", "none"])
+    gmode = rng.choice(["flat", "flat", "gain", "drift", "both"])
+    gain, drift = [1.0] * nfr, [0] * nfr
+    if gmode in ("gain", "both"):
+        g = 1.0
+        for k in range(1, nfr):
+            g = min(1.08, max(0.9, g + rng.choice([-0.04, -0.02, 0.02, 0.04])))
+            gain[k] = round(g, 2)
+    if gmode in ("drift", "both"):
+        d = 0
+        for k in range(1, nfr):
+            d = max(0, d + rng.choice([-3, -1, 1, 2, 3, 5]))
+            drift[k] = d
+    top = int((250 - max(drift)) / max(gain)) - amp_hi
+    if kind == "none":
+        lo = hi = 0
+    elif kind == "offset":
+        lo = hi = rng.randint(5, max(5, min(150, top)))
+    else:
+        hi = rng.randint(min(70, top), max(min(70, top), min(200, top)))
+        lo = rng.randint(0, max(0, min(30, hi - 50)))
+    cam = dict(kind="offset" if kind == "none" else kind, lo=lo, hi=hi, gain=gain, drift=drift)
+    if kind in ("gradient", "step"):
+        cam["angle"] = rng.randint(0, 7)
+    if kind == "step":
+        cam["pos"] = rng.choice([0.3, 0.4, 0.5, 0.6, 0.7])
+        cam["width"] = rng.choice([6, 8, 10, 14])
+    if kind == "vignette":
+        cam["centre"] = [rng.choice([0.2, 0.5, 0.5, 0.8]), rng.choice([0.2, 0.5, 0.5, 0.8])]
+    if kind == "corner":
+        cam["centre"] = [rng.choice([0.0, 1.0]), rng.choice([0.0, 1.0])]
+        cam["reach"] = rng.choice([0.3, 0.4, 0.55])
+    return cam
+
+
+_REJECTS = collections.Counter()      # why the generator discarded a draw (development aid)
+
+
+def gen_cam_movie(rng):
+    """stream "cam": raw movies as cameras produce them (uneven illumination, offset, slow drift)
+    with preprocess=True, mostly in the sep regime; also varies the options the movie stream keeps
+    fixed: percentile, noise_size, smoothing_size, a do-nothing after_link hook, list / reader."""
+    if rng.random() < 0.2:
+        # admissibility only: the adversarial layouts of the movie stream on an uneven background
+        inp = gen_movie(rng, "adv")
+        if inp is None:
+            return None
+        nfr = len(inp["frames"])
+        amp_hi = max([b[2] for fr in inp["frames"] for b in fr] + [90])
+        if amp_hi > 160:
+            for fr in inp["frames"]:
+                for b in fr:
+                    b[2] = int(b[2] * 0.6)
+            amp_hi = int(amp_hi * 0.6)
+        inp["cam"] = draw_cam(rng, nfr, amp_hi)
+        inp["flicker"] = None
+        inp["preprocess"] = rng.random() < 0.8
+        inp["stream"] = "cam"
+        inp["after_link"] = rng.random() < 0.3
+        inp["reader"] = rng.choice(["list", "reader"])
+        inp["dtype"] = rng.choice(["uint8", "uint8", "float64"])
+        inp["threshold"] = rng.choice([None, None, 1, 3, 5])
+        return inp
+    par = gen_params(rng, "sep")
+    par["sep"], par["sep_iso"] = rng.choice(CAM_SEPS)
+    par["sep"] = list(par["sep"])
+    sep = [float(Fraction(x)) for x in par["sep"]]
+    sr = [q / 4.0 for q in par["sr"]]
+    if par["diameter"] is not None and rng.random() < 0.5:
+        # diameter relative to the separation: a little smaller / equal / larger (odd or even)
+        d = max(3, int(min(sep)) + rng.choice([-2, -1, 0, 1, 2]))
+        par["diameter"] = [str(d), str(d)]
+    rad = [int(float(Fraction(x)) // 2) for x in (par["diameter"] or par["sep"])]
+    H, W = rng.randint(44, 88), rng.randint(44, 88)
+    nfr = rng.randint(3, 6)
+    smax = max(0.8, min(2.0, (min(sep) - 1) / 4.0))
+    sig = rng.choice([smax, round(0.8 * smax, 2)])
+    noise_size = rng.choice([1, 1, 1, 0.8, 1.5])
+    smoothing = None
+    if rng.random() < 0.3:
+        smoothing = int(max(sep)) + rng.choice([0, 2, 3, 4])
+    box = [int((v - 1) / 2) * 2 + 1 for v in ([smoothing] * 2 if smoothing else sep)]
+    pct = rng.choice([64, 64, 64, 50, 30, 75])
+    # blobs of the brightness of the background variation, not far above it (uint8 ceiling)
+    amp_lo = rng.randint(30, 70)
+    amp = (amp_lo, amp_lo + rng.randint(0, 30))
+    frames = place_sep(rng, H, W, rng.randint(1, 7), nfr, sep, sr, rad, sig, amp=amp)
+    if frames is None:
+        _REJECTS["no_room"] += 1
+        return None
+    noise = dict(kind=rng.choice(["none", "none", "none", "uniform"]), level=rng.randint(1, 2),
+                 seed=rng.randrange(10 ** 6))
+    dtype = rng.choice(["uint8", "uint8", "float64"])
+    # what the band-pass of the code may leave above the ideal one: its rolling average of an integer
+    # frame is computed in integer arithmetic (truncation, once per axis)
+    slack = 2.0 if dtype == "uint8" else 0.0
+    t_default = 1.0 if dtype == "uint8" else 1 / 255.
+    inp = None
+    for attempt in range(4):
+        cam = draw_cam(rng, nfr, amp[1])
+        # ---- the premise, stated on the generator's own band-pass: nothing but the blobs is left of
+        # the cleaned frame (the clipping threshold is chosen accordingly, as a user would), every
+        # rendered blob is a clear maximum of it at its rendered centre
+        bps, resid = [], 0.0
+        r0 = int(math.ceil(3 * sig + noise_size + 2))
+        for k, fr in enumerate(frames):
+            raw = render((H, W), fr, dict(noise, seed=noise["seed"] + k), 0, cam, k)
+            bp = own_bandpass(raw, noise_size, box, threshold=-1e9)
+            rest = bp.copy()
+            for b in fr:
+                rest[max(0, b[0] - r0):b[0] + r0 + 1, max(0, b[1] - r0):b[1] + r0 + 1] = 0
+            resid = max(resid, float(rest.max()))
+            bps.append(bp)
+        t_min = resid + slack + 0.25
+        if t_default > t_min:
+            threshold = rng.choice([None, None, None, int(math.ceil(t_min)) + 1, int(math.ceil(t_min)) + 3])
+        else:
+            threshold = int(math.ceil(t_min)) + rng.choice([0, 0, 1, 2])
+        t_eff = t_default if threshold is None else threshold
+        ok, mass_min = t_eff <= 10, None
+        if not ok:
+            _REJECTS["residue_%s" % cam["kind"]] += 1
+        for k, fr in enumerate(frames):
+            if not ok:
+                break
+            cl = np.where(bps[k] >= t_eff, bps[k], 0.0)
+            nz = cl[cl > 0]
+            if len(nz) == 0:
+                ok = False
+                _REJECTS["empty"] += 1
+                break
+            thr = float(np.percentile(nz, pct))
+            for b in fr:
+                y, x = b[0], b[1]
+                win = cl[y - 1:y + 2, x - 1:x + 2]
+                if cl[y, x] < win.max() or cl[y, x] < 1.2 * thr + 1 + slack:
+                    if ok:
+                        _REJECTS["peak_offcentre" if cl[y, x] < win.max() else "peak_low_pct%d" % pct] += 1
+                    ok = False
+                m = disc_mass(cl, (y, x), rad)
+                mass_min = m if mass_min is None else min(mass_min, m)
+        if ok:
+            # minmass stays BELOW the band-passed mass of the dimmest blob.  Kept out on purpose: a
+            # minmass between the band-passed mass and the raw-frame mass of a blob.  The unchanged
+            # tree fails the recovery clause there: find_link_iter filters the first pass on
+            # characterize(coords, image) of the RAW frame, FindLinker.get_relocate_candidates on the
+            # mass in the band-passed frame, so a blob that the first pass keeps is refused when it has
+            # to be re-found.  E.g. one blob (amplitude 60, sigma 1.5) on a 48x56 black frame,
+            # separation 9, search_range 4, preprocess=True, minmass 400: raw mass 824, band-passed
+            # mass 381 -> found in frame 0, withheld in frames 1-2, never re-found (reported).
+            minmass = rng.choice([0, 30, int(0.5 * mass_min), int(0.8 * mass_min)])
+            inp = dict(stream="cam", regime="sep", shape=[H, W], frames=frames, flicker=None,
+                       noise=noise, memory=rng.choice([0, 0, 1]), minmass=minmass, preprocess=True,
+                       pct=pct, noise_size=noise_size, smoothing_size=smoothing, threshold=threshold,
+                       dtype=dtype, cam=cam,
+                       after_link=rng.random() < 0.3, reader=rng.choice(["list", "reader"]),
+                       premise=dict(attempt=attempt, residue=round(resid, 2),
+                                    clean_mass_min=round(float(mass_min), 1)),
+                       withhold=dict(mode=rng.choice(["none", "one", "one", "all", "random30",
+                                                      "random30", "random50"]),
+                                     seed=rng.randrange(10 ** 6)), dim=2)
+            break
+        if attempt == 1:
+            noise = dict(noise, kind="none")
+    if inp is None:
+        return None
     inp.update(par)
     return inp
 
@@ -753,6 +1055,11 @@ def gen_cases(ctx):
         rng = ctx.rng("movie", i)
         regime = "sep" if rng.random() < 0.5 else "adv"
         inp = gen_movie(rng, regime)
+        if inp is not None:
+            yield inp
+    ncam = ctx.n(260, 2500)
+    for i in range(ncam):
+        inp = gen_cam_movie(ctx.rng("cam", i))
         if inp is not None:
             yield inp
     nc = ctx.n(1200, 12000)
@@ -869,8 +1176,13 @@ def run_find_link(inp, store, log):
     import trackpy as tp
     shape = tuple(inp["shape"])
     flicker = inp.get("flicker") or [0] * len(inp["frames"])
-    reader = [Img(render(shape, fr, dict(inp["noise"], seed=inp["noise"]["seed"] + k), flicker[k]), k)
+    reader = [Img(render(shape, fr, dict(inp["noise"], seed=inp["noise"]["seed"] + k), flicker[k],
+                         inp.get("cam"), k), k)
               for k, fr in enumerate(inp["frames"])]
+    if inp.get("dtype", "uint8") != "uint8":
+        reader = [Img(np.asarray(f).astype(inp["dtype"]), f.frame_no) for f in reader]
+    if inp.get("reader") == "reader":
+        reader = Reader(reader)
     wh = inp["withhold"]
 
     def before_link(coords, image, **kw):
@@ -893,6 +1205,18 @@ def run_find_link(inp, store, log):
 
     from trackpy.linking.utils import SubnetOversizeException
     kw = fl_kwargs(inp)
+    if inp.get("noise_size") is not None:
+        kw["noise_size"] = inp["noise_size"]
+    if inp.get("smoothing_size") is not None:
+        kw["smoothing_size"] = inp["smoothing_size"]
+    if inp.get("threshold") is not None:
+        kw["threshold"] = inp["threshold"]
+    if inp.get("after_link"):
+        # a hook that does nothing (find_link writes its return value back into the linker)
+        def after_link(features, **kwargs):
+            log["after_link_calls"] = log.get("after_link_calls", 0) + 1
+            return features
+        kw["after_link"] = after_link
     with recorded_calls(store, log.setdefault("linked", {})):
         try:
             out = tp.find_link(reader, preprocess=inp["preprocess"], before_link=before_link, **kw)
@@ -1093,6 +1417,25 @@ def run_movie_case(ctx, inp):
     res.stat("preprocess_%d" % int(inp["preprocess"]))
     res.stat("sr_" + ("iso" if inp["iso"] else "aniso"))
     res.stat("diameter_" + ("explicit" if inp.get("diameter") else "default"))
+    if inp.get("stream") == "cam":
+        cam = inp["cam"]
+        res.stat("cam_movies")
+        res.stat("cam_regime_" + inp["regime"])
+        res.stat("cam_bg_" + ("none" if cam["hi"] == 0 else cam["kind"]))
+        res.stat("cam_illumination_" + ("steady" if len(set(cam["gain"])) == 1 and
+                                        len(set(cam["drift"])) == 1 else "drifting"))
+        res.stat("cam_pct_%s" % inp["pct"])
+        res.stat("cam_noise_size_%s" % inp.get("noise_size", 1))
+        res.stat("cam_smoothing_" + ("explicit" if inp.get("smoothing_size") else "default"))
+        res.stat("cam_after_link_%d" % int(bool(inp.get("after_link"))))
+        res.stat("cam_dtype_" + inp.get("dtype", "uint8"))
+        res.stat("cam_threshold_" + ("default" if inp.get("threshold") is None else "explicit"))
+        res.stat("cam_reader_" + inp.get("reader", "list"))
+        res.stat("cam_minmass_" + ("0" if inp["minmass"] == 0 else "positive"))
+        if inp.get("after_link") and log.get("after_link_calls", 0) == 0 and out is not None:
+            res.violation("property-violation", "the after_link hook was never called",
+                          signature=dict(what="after-link-not-called"))
+            return res
     res.stat("relocate_calls", len(store))
     withheld = sum(len(log["detected"].get(t, [])) - len(log["handed"].get(t, [])) for t in range(nfr))
     res.stat("detections_withheld", withheld)
@@ -1182,8 +1525,40 @@ def run_movie_case(ctx, inp):
                           signature=dict(what="recovery-failed", sr_iso=bool(inp["iso"]),
                                          withheld=withheld > 0))
             return res
+        # first pass / relocation consistency: the complete trajectories are those of the complete
+        # detections, so a withheld detection that the first pass would have kept (mass of the
+        # feature mask on the frame handed to find_link >= minmass) comes back AT ITS OWN PIXEL
+        rawf = [np.asarray(img) for img in reader]
+        for t in range(1, nfr):
+            outset = set(tuple(p) for p in levels[t][1])
+            hs = handed.get(t, set())
+            for p in log["detected"].get(t, []):
+                if p in hs or not any(abs(p[0] - b[0]) <= 2 and abs(p[1] - b[1]) <= 2
+                                      for b in truth[t]):
+                    continue
+                m0 = disc_mass(rawf[t], p, radius)
+                if m0 is None or m0 < inp["minmass"]:
+                    res.stat("withheld_below_minmass")
+                    continue
+                res.stat("withheld_checked_same_pixel")
+                if p not in outset:
+                    near = [q for q in outset if abs(q[0] - p[0]) <= 2 and abs(q[1] - p[1]) <= 2]
+                    res.violation("property-violation",
+                                  "frame %d: the detection %s (mass %s >= minmass %s) was withheld and "
+                                  "came back at %s instead of its own pixel" % (t, p, m0, inp["minmass"],
+                                                                               near),
+                                  impl=dict(levels=[(t2, p2, l2) for (t2, p2, l2, _) in levels],
+                                            detected={str(k): v for k, v in log["detected"].items()},
+                                            handed={str(k): sorted(v) for k, v in handed.items()}),
+                                  signature=dict(what="withheld-detection-moved",
+                                                 preprocess=bool(inp["preprocess"])))
+                    return res
         res.stat("recovered_movies")
         res.stat("recovered_withheld_detections", withheld)
+        if inp.get("stream") == "cam":
+            res.stat("cam_inside_recovery_clause")
+            if withheld:
+                res.stat("cam_recovered_with_withheld")
         if withheld == 0 and all(len(log["detected"].get(t, [])) == nb for t in range(nfr)):
             dtl = detect_then_link(inp, reader, log)
             if dtl != partition(levels):
